@@ -225,6 +225,46 @@ class Sim:
             self.rec(ev, loop=name, **fields)
         veriftrace.sink = sink
         self._observe_toggles(sink)
+        self._observe_orchestrator(sink)
+
+    @staticmethod
+    def _observe_orchestrator(sink: Callable[[str, dict[str, Any]], None]) -> None:
+        """Observe (never alter) the orchestrator: every call of adjust_tasks is reported at its entry with the insights it reads (the
+        watched resources, the served namespaces) and at its return (`orch.adjust`, `orch.rest`); the insights object is remembered
+        so that a harness can read the final insights (Sim.insights_of)."""
+        from kopf._core.reactor import orchestration
+        if getattr(orchestration, '_verif_observed', False):
+            orchestration._verif_sink = sink
+            return
+        orchestration._verif_observed = True
+        orchestration._verif_sink = sink
+        orchestration._verif_insights = {}
+        orig = orchestration.adjust_tasks
+
+        def snap(insights: Any) -> dict[str, Any]:
+            rs = sorted(insights.watched_resources, key=lambda r: (r.plural, r.version, r.group))
+            return {'res': [f'{r.plural}.{r.version}.{r.group}' for r in rs], 'cscoped': [f'{r.plural}.{r.version}.{r.group}' for r in rs if not r.namespaced],
+                    'nss': sorted('*' if n is None else str(n) for n in insights.namespaces)}
+
+        async def adjust_tasks(*a: Any, **kw: Any) -> Any:
+            ins = kw['insights']
+            try:
+                name = getattr(asyncio.get_running_loop(), 'name', None)
+            except RuntimeError:
+                name = None
+            orchestration._verif_insights[name] = (ins, snap)
+            orchestration._verif_sink('orch.adjust', snap(ins))
+            try:
+                return await orig(*a, **kw)
+            finally:
+                orchestration._verif_sink('orch.rest', {})
+        orchestration.adjust_tasks = adjust_tasks
+
+    @staticmethod
+    def insights_of(loop_name: str) -> dict[str, Any] | None:
+        from kopf._core.reactor import orchestration
+        got = getattr(orchestration, '_verif_insights', {}).get(loop_name)
+        return None if got is None else got[1](got[0])
 
     @staticmethod
     def _observe_toggles(sink: Callable[[str, dict[str, Any]], None]) -> None:
